@@ -7,3 +7,9 @@ open IrVerif.Clone
 #print axioms C13_closed_model
 #print axioms C13_clone_pure
 #print axioms C13_clone_pure_model
+#print axioms C13_frame
+#print axioms C13_frame_clone_edited
+#print axioms C13_frame_function
+#print axioms C13_functionalize
+#print axioms C13_frame_orig_edited
+#print axioms C13_frame_orig_edited_model
